@@ -62,15 +62,8 @@ func NewInt(p Params) seqmc.Sys {
 func NewStruct(p Params) seqmc.Sys {
 	calls := new(int)
 	h := &H[K]{P: p, mk: func(i int) K { return K{i} }, un: func(k K) int { return k.A }, calls: calls}
-	h.cmp = func(a, b K) int { // reversed
-		switch {
-		case a.A > b.A:
-			return -1
-		case a.A < b.A:
-			return 1
-		}
-		return 0
-	}
+	// reversed, and a legitimate three-way comparator whose results are not just -1/0/+1
+	h.cmp = func(a, b K) int { return 3 * (b.A - a.A) }
 	h.T = avl.New(func(a, b K) int { *calls++; return h.cmp(a, b) })
 	return h
 }
@@ -495,13 +488,20 @@ func CheckTree(t *avl.Tree[int], want []int, balance bool) string {
 	return ""
 }
 
+// NewTree builds the int trees of the families below. The default is avl.NewOrdered; Magnitude is the
+// same order through avl.New with a comparator that returns differences (any negative / positive
+// number is a legitimate answer of a three-way comparator, not only -1 / +1).
+var NewTree = func() avl.Tree[int] { return avl.NewOrdered[int]() }
+
+func Magnitude() avl.Tree[int] { return avl.New(func(a, b int) int { return 7 * (a - b) }) }
+
 // RemovalFamilies: for every size n in 1..maxN and every build order, a fresh tree of the values
 // 0..n-1 is built and then (a) every single value is removed from it, (b) for n <= pairsN every
 // ordered pair of values is removed; the tree is checked after each removal. trace is called
 // before each case. It returns the number of cases and the first failure.
 func RemovalFamilies(maxN, pairsN int, balance bool, trace func(v any)) (cases int, fail string, replay any) {
 	build := func(order []int) avl.Tree[int] {
-		t := avl.NewOrdered[int]()
+		t := NewTree()
 		for _, v := range order {
 			t.Add(v)
 		}
@@ -567,7 +567,7 @@ func RemovalFamilies(maxN, pairsN int, balance bool, trace func(v any)) (cases i
 // when dups is set), checking every call's result against a count model and the whole tree
 // (contents and, when balance is set and values are distinct, AVL balance) every 499 calls.
 func Churn(n, vals int, dups, balance bool, trace func(any)) (fail string, replay any) {
-	t := avl.NewOrdered[int]()
+	t := NewTree()
 	count := map[int]int{}
 	size := 0
 	var x uint32 = 2463534242
@@ -633,7 +633,7 @@ func GoTest(p Params, str bool) func(path []seqmc.Op) string {
 		sb.WriteString("func TestReplay(t *testing.T) {\n")
 		val := func(v int) string { return fmt.Sprint(v) }
 		if str {
-			sb.WriteString("\ttype K struct{ A int }\n\ttr := avl.New(func(a, b K) int { return b.A - a.A }) // reversed order\n")
+			sb.WriteString("\ttype K struct{ A int }\n\ttr := avl.New(func(a, b K) int { return 3 * (b.A - a.A) }) // reversed order, results beyond -1/0/+1\n")
 			val = func(v int) string { return fmt.Sprintf("K{%d}", v) }
 		} else {
 			sb.WriteString("\ttr := avl.NewOrdered[int]()\n")
